@@ -19,11 +19,12 @@ pub struct Args {
     pub out: Option<String>,
     pub known: Option<String>,
     pub replay: Option<String>,
+    pub focus: Option<String>,
 }
 
 fn parse_args() -> Args {
     let a: Vec<String> = std::env::args().collect();
-    let mut r = Args { check: a.get(1).cloned().unwrap_or_default(), tier: "quick".into(), seed: 0, out: None, known: None, replay: None };
+    let mut r = Args { check: a.get(1).cloned().unwrap_or_default(), tier: "quick".into(), seed: 0, out: None, known: None, replay: None, focus: None };
     let mut i = 2;
     while i < a.len() {
         match a[i].as_str() {
@@ -41,6 +42,10 @@ fn parse_args() -> Args {
             }
             "--known" => {
                 r.known = Some(a[i + 1].clone());
+                i += 1;
+            }
+            "--focus" => {
+                r.focus = Some(a[i + 1].clone());
                 i += 1;
             }
             "--replay" => {
@@ -117,7 +122,13 @@ pub fn props_for(sc: &Scenario, f: &Failure) -> Vec<&'static str> {
         }
         return v;
     }
-    vec![f.property]
+    let mut v = vec![f.property];
+    for a in &f.also {
+        if !v.contains(a) {
+            v.push(a);
+        }
+    }
+    v
 }
 
 fn run_all(scs: Vec<Scenario>, known: &Known, rep: &Mutex<Report>) {
@@ -781,6 +792,7 @@ fn replay_obs(v: &serde_json::Value) -> i32 {
 fn main() {
     let args = parse_args();
     let known = Known::load(&args.known);
+    let _ = scenario::FOCUS.set(args.focus.clone());
     if let Some(rp) = &args.replay {
         let t = std::fs::read_to_string(rp).expect("replay file");
         let v: serde_json::Value = serde_json::from_str(&t).expect("json");
